@@ -487,7 +487,7 @@ class Sim:
             fb["raised"] = a[1] if a[0] == "raised" else None
         elif op in O.MUTATORS:
             self._mutate(i, hi, op, fb, inject=st.get("inject"), thread=int(st.get("thread") or 0))
-        elif op in O.FORKS or op in ("reload", "stranger", "stranger_kw", "other", "sibling", "derive_cifdata"):
+        elif op in O.FORKS or op in ("reload", "stranger", "stranger_kw", "other", "heavy", "sibling", "derive_cifdata"):
             self._fork(i, hi, op)
         elif op in O.DERIVES:
             self._derive(i, hi, op)
@@ -778,6 +778,34 @@ class Sim:
                 self.last_raise.append(None)
                 self.armed.append(False)
                 self.stats["fork:reload"] += 1
+                self._log(i, hi, op, "-> h%d" % (len(self.world) - 1))
+                self._check_others(i, hi, op, others)
+                return
+            if op == "heavy":
+                # an unrelated small crystal with much heavier elements than
+                # anything else in this process (C-Br, C-I, C-Cl bonds near the
+                # upper end of their bonding windows): whatever the library
+                # learned from the lighter crystals must not colour its answers
+                from chmpy.core.element import Element
+                from chmpy.crystal import AsymmetricUnit, SpaceGroup, UnitCell
+
+                uc = UnitCell.from_lengths_and_angles([9.0, 9.5, 10.0], np.radians([90.0, 90.0, 90.0]))
+                cart = np.array([[1.0, 1.0, 1.0], [2.93, 1.0, 1.0], [1.0, 3.14, 1.0], [1.0, 1.0, 2.77], [0.37, 0.37, 0.37]])
+                au = AsymmetricUnit([Element[x] for x in ("C", "Br", "I", "Cl", "H")], uc.to_fractional(cart))
+                new = Crystal(uc, SpaceGroup(1), au)
+                self.world.append(new)
+                self.titl0.append(new.titl)
+                self.kw.append(False)
+                self.held.append([])
+                self.box.append({})
+                self.cif_loaded.append(False)
+                self.cif_group.append(None)
+                self.mut_log.append(None)
+                self.repeat.append({})
+                self.last_mut.append(None)
+                self.last_raise.append(None)
+                self.armed.append(False)
+                self.stats["fork:heavy"] += 1
                 self._log(i, hi, op, "-> h%d" % (len(self.world) - 1))
                 self._check_others(i, hi, op, others)
                 return
